@@ -10,8 +10,19 @@ LEVEL_TEXT = {
     "C20": "Bounded symbolic execution of the real queue code against a slice model for every operation program up to the stated length and every constructor parameter in the stated range.",
 }
 
+LEVEL_TEXT.update({
+    "C02": "Bounded model checking: one UNLOCK or re-entrant LOCK with symbolic LockId choice/Rcount/flags from every state of the bounded shape; ownership, error codes and depth arithmetic asserted against snapshots of the real holder list and the reply log.",
+    "C03": "Bounded model checking: reply accounting (exactly one terminal reply per request, at most one EXPRIED, right connection, no double free of command objects) after one arbitrary step (LOCK/UNLOCK/clock tick through the real sweeps) from every state of the bounded shape.",
+    "C04": "Bounded model checking: after one arbitrary step from every state of the bounded shape, no admissible request is left at the head of the queue and no request overtook an earlier one of equal or higher priority.",
+    "C17": "Bounded model checking: STATE counters and reply LCount/LRCount compared with a census of the real structures after one arbitrary step from every state of the bounded shape.",
+})
+
 LEVEL_NOTE = {
     "C01": "Trusted: the symgo executor (validated per run by native replay of sampled path witnesses), z3. Schedules: single-threaded critical sections only (no interleaving of two requests inside LockDB.Lock is explored); time values drawn from classes {0,3}/{0,4}; millisecond flags and aof-timing flags fixed in these harnesses.",
+    "C02": "Trusted: symgo (validated by native replay of sampled witnesses), z3. Single-threaded critical sections; holder list shapes <=3 (inline queue only); show/update flags excluded here (C06).",
+    "C03": "Trusted: symgo, z3. In-memory protocol (MemWaiterServerProtocol) only: the socket write path and text-protocol lockWaiter hand-off are outside; require-ack flag excluded (C11); no interleaving of two threads.",
+    "C04": "Trusted: symgo, z3. Queues of <=2 entries (inline representation); ring/priority-ring migration beyond that is covered only by C20. Two recorded findings (known_findings.json).",
+    "C17": "Trusted: symgo, z3. One key, one shard; free collectors outside; the drain phase is checked only over the single step.",
     "C14": "Trusted: symgo, z3. crypto/md5 is an uninterpreted function.",
     "C20": "Trusted: symgo. Programs longer than the bound and constructor parameters above 3 are outside the claim.",
 }
